@@ -12,7 +12,7 @@ def h1_trace(name, events):
             continue
         d = {"a": e["a"]}
         if e["a"] == "add_node":
-            d.update(idx=e["idx"], n=e["n"], cls=e["cls"])
+            d.update(idx=e["idx"], n=e["n"], cls=e["cls"], o=e.get("o", 0))
         elif e["a"] == "remove_node":
             d.update(idx=e["idx"], n=e["n"], dead=bool(e["dead"]))
         elif e["a"] == "add_relation":
@@ -41,3 +41,49 @@ def validate_h1(ctx, results, names, pinned: bool):
     v = validate_traces(ctx, "SymbolGraph_Trace", cfg, traces)
     ctx.traces += len([t for t in traces if t["ev"]])
     return v
+
+
+SUBS = {"Base": {"Base", "Mid", "Leaf"}, "Mid": {"Mid", "Leaf"}, "DA": {"DA", "DB1", "DB2", "DD"}, "DB1": {"DB1", "DD"},
+        "DB2": {"DB2", "DD"}}
+
+
+def judge_query(qcls, census, tracked, cls, o):
+    """C13 verdict for one domain-less query: o = observation {bag, none, foreign, error}. Returns a list of problems."""
+    sub = SUBS.get(qcls, {qcls})
+    must = {x for x in census & tracked if cls[x] in sub}
+    may = {x for x in census - tracked if cls[x] in sub}
+    bag = {int(k): v for k, v in o["bag"].items()}
+    problems = []
+    if o.get("error"):
+        problems.append("exception " + str(o["error"]))
+    if o["none"]:
+        problems.append(f"{o['none']} dead (None) results")
+    if o["foreign"]:
+        problems.append(f"{o['foreign']} results that are no instance of this history")
+    for x in sorted(must):
+        if bag.get(x, 0) == 0:
+            problems.append(f"live instance {x} ({cls[x]}) missing")
+    for x, n in sorted(bag.items()):
+        if x not in must and x not in may:
+            problems.append(f"instance {x} ({cls.get(x)}) returned but is not a live instance of {qcls}")
+        if n > 1:
+            problems.append(f"instance {x} ({cls.get(x)}) returned {n} times")
+    return problems
+
+
+def judge_audit(h, r):
+    """C13 on the final audit queries of a replayed history."""
+    tracked, cls = set(), {}
+    for m in h:
+        if m["a"] == "create":
+            tracked.add(m["o"]); cls[m["o"]] = m["c"]
+        elif m["a"] == "clear":
+            tracked = set()
+        elif m["a"] == "relate":
+            tracked |= {m["p"], m["c"]}
+    out = []
+    for qcls, o in (r.get("audit") or {}).items():
+        pr = judge_query(qcls, set(o["census_before"]), tracked, cls, o)
+        if pr:
+            out.append({"audit_query": qcls, "observed": o, "problems": pr})
+    return out
